@@ -122,11 +122,11 @@ def c10(tier, repo=None):
         fixed = [("par2", dict(mg=2, multi=True)), ("seq", dict(mg=2)), ("nestdup", dict(mu=3, mo=3)), ("par3", dict(mu=4, mo=4)),
                  ("nest", dict(mu=3, mo=3)), ("nest", dict(mu=3, mo=3, md=1, multi=True)), ("nestdup", dict(mu=3, mo=3, md=1, multi=True)),
                  ("sbr", dict(mg=2, mu=4, mo=4, md=2)), ("nsbr", dict(mg=2, mu=4, mo=4, md=2, multi=True)), ("tools", dict(mg=2, mu=4, mo=4, md=2)),
-                 ("det", dict(mg=2, mu=4, mo=4, md=2))]
+                 ("det", dict(mg=2, mu=4, mo=4, md=2)), ("par3", dict(mg=1, mu=2, mo=2, md=1, fail=False, dv=True))]
     else:
         fixed = [("par2", dict(mg=1)), ("seq", dict(mg=1)), ("nestdup", dict(mu=2, mo=2)), ("nest", dict(mg=0, mu=2, mo=2, md=1, multi=True)),
                  ("sbr", dict(mu=3, mo=3, md=1)), ("nsbr", dict(mu=3, mo=3, md=1, multi=True)), ("tools", dict(mg=2, mu=3, mo=3, md=1)),
-                 ("det", dict(mg=1, mu=3, mo=3, md=1))]
+                 ("det", dict(mg=1, mu=3, mo=3, md=1)), ("par3", dict(mg=0, mu=1, mo=1, md=0, fail=False, dv=True))]
     jobs = [(lambda s=s, kw=kw: cb.cb_model(s, fix=True, workers=1 if not thorough else 2, timeout=1500 if thorough else 170, **kw)) for s, kw in fixed]
     # seeded variants of the model: the rule must reject each of them (sanity of rule + model; otherwise inconclusive)
     variants = [("NoRebind: withRunInfo returns a manager without per-call handlers unchanged (tool calls under the ToolsNode's run info)",
@@ -136,6 +136,8 @@ def c10(tier, repo=None):
                  dict(keepscope=True, mg=1, mu=2, mo=2, md=1)),
                 ("ExtractFirst: extractOption in front of the deferred start/end pairing (rejected run reports nothing)", "nest",
                  dict(extractfirst=True, mu=2, mo=2, md=1)),
+                ("ShareBase: DesignateNodeWithPath appends onto the base option's paths array (two derived callbacks options alias)", "par3",
+                 dict(mg=0, mu=1, mo=1, md=0, fail=False, dv=True, sharebase=True)),
                 ("NoBreak: initNodeCallbacks without the break after the first matching path (a node named twice gets the handler twice)", "par2",
                  dict(nobreak=True, mg=0, mu=2, mo=2, md=1, multi=True))]
     for what, shape, kw in variants:
@@ -171,7 +173,8 @@ def c10(tier, repo=None):
                 ("nestdup", dict(mu=3, mo=3), None, 3000), ("nest", dict(mu=3, mo=3), "num=2500", 3000), ("par3", dict(mu=4, mo=4), "num=2500", 3000),
                 ("nest", dict(mu=3, mo=3, md=2, multi=True), "num=2000", 2500), ("nestdup", dict(mu=3, mo=3, md=2, multi=True), "num=1500", 2000),
                 ("sbr", dict(mg=2, mu=4, mo=4, md=2), None, 2000), ("nsbr", dict(mg=2, mu=4, mo=4, md=2, multi=True), None, 2500),
-                ("tools", dict(mg=2, mu=4, mo=4, md=2), None, 3000), ("det", dict(mg=2, mu=4, mo=4, md=2), "num=2000", 3000)]
+                ("tools", dict(mg=2, mu=4, mo=4, md=2), None, 3000), ("det", dict(mg=2, mu=4, mo=4, md=2), "num=2000", 3000),
+                ("par3", dict(mg=1, mu=2, mo=2, md=1, fail=False, dv=True), "num=1500", 3000)]
     else:
         gens = [("par2", dict(mg=1, mu=3, mo=3, md=2), None, 550), ("par2", dict(mg=1, mu=2, mo=2, md=1, multi=True), None, 180),
                 ("seq", dict(mg=1, mu=3, mo=3), None, 60),
@@ -183,12 +186,14 @@ def c10(tier, repo=None):
                 # a ToolsNode with two parallel tool calls (tool-call units); supply includes "global handlers only"
                 ("tools", dict(mg=2, mu=2, mo=2, md=1), None, 300),
                 # a component run under a detached callback scope (InitCallbacks without handlers) inside a node body
-                ("det", dict(mg=1, mu=2, mo=2, md=1), "num=150", 250)]
+                ("det", dict(mg=1, mu=2, mo=2, md=1), "num=150", 250),
+                # a callbacks option that is one of two siblings derived from a base option value designated stepwise to 1..4 nodes
+                ("par3", dict(mg=0, mu=1, mo=1, md=0, fail=False, dv=True), "num=150", 300)]
 
     def gen(shape, kw, sim, limit):
         cases, run = cb.cb_generate(shape, simulate=sim, depth=80 if sim else None, seed=vlib.SEED if sim else None,
                                     workers=2 if sim else (4 if thorough else 2), timeout=1500 if thorough else 170,
-                                    tag="_m" if kw.get("multi") else "", **kw)
+                                    tag="_m" if kw.get("multi") else "_dv" if kw.get("dv") else "", **kw)
         for c in cases:
             c["fam"] = shape + ("+multi" if kw.get("multi") else "")
         return shape, kw, sim, limit, cases, run
